@@ -48,7 +48,23 @@
        callback, independently of the environment.
    * "fully independent: later changes to, or destruction of, either container
       leave the other untouched"
-       NOT carried by a theorem of its own.  In the model containers are
+       PARTLY carried by theorems since Proofs/Gaps.v and Proofs/Owned2.v:
+       C15_clone_acct (ANY environment): the clone owns exactly the objects the
+         Clone callbacks returned, one pair per stored entry, and cloning
+         destroys nothing; on a Clone panic the only objects destroyed are
+         objects the Clone callbacks returned during this call (d is part of
+         `made`) - objects of the original only if Clone handed them back.
+       C15_clone_ids_fresh / C15_clone_disjoint_from_source: if Clone returns
+         new objects (premises HFK / HFV), no object stored in the clone is an
+         object stored in the original (nor any of a given list `avoid`), so
+         destroying or changing the elements of one copy cannot touch an
+         element of the other.  CAVEAT: HFK / HFV are quantified over EVERY
+         callback state; they hold of an environment whose Clone is fresh
+         regardless of state (C15_example_fresh_hyps) but not of the scripted
+         env_map / env_set, whose new identities come from a counter in the
+         callback state (for these, freshness on the actual run is the
+         concrete C15_example_run and the harness's ledger).
+       The rest of the argument stays at model level: containers are
        VALUES: the original is the argument [src], which [clone_from_src]
        cannot modify, and the clone is the new [self]; no later operation on
        one register of the interpreter (Exec.step: put_m / put_s) can reach
@@ -74,17 +90,27 @@
        injected fault), satisfies HCK / HCV with ck = kcls and
        veq a b = (vdat a =? vdat b); C15_clone_honest_map is C15_clone_lawful
        instantiated there.
+       C15_env_set_cloneK, C15_env_set_cloneV : the same for the Set environment
+       env_set (V = unit, veq = fun _ _ => true), so that C15_clone_lawful /
+       C15_clone_equal apply to Set<T,N> = Map<T,(),N> under the honest script.
 
    PARTLY COVERED / NOT COVERED BY A THEOREM
-     - independence (above): model-level argument + correspondence check.
-     - Set<T,N> (src/set/clone.rs) is Map<T,(),N>: the three generic theorems
-       hold for V = unit; there is no separate Set theorem in this file.
+     - independence (above): identity-level theorems (C15_clone_acct,
+       C15_clone_ids_fresh, C15_clone_disjoint_from_source) + model-level
+       argument for the storage + correspondence check; "arbitrary operations
+       on either copy" afterwards are not composed with these into one theorem.
+     - Set<T,N> (src/set/clone.rs) is Map<T,(),N>: the generic theorems hold for
+       V = unit and their premises are now instantiated for env_set
+       (C15_env_set_cloneK / V); there is no Set analogue of
+       C15_clone_honest_map in this file.
      - "exactly once" is proved under HCK / HCV (Clone does not panic).  When a
-       Clone panics only safety (C15_clone_safe) is claimed.                  *)
+       Clone panics, safety (C15_clone_safe) and the ledger balance
+       (C15_clone_acct, panic clause) are claimed.                            *)
 (* ========================================================================== *)
 Require Import Model.Base Model.Slots Model.MapOps Model.Exec.
 Require Import Proofs.Hoare Proofs.Inv Proofs.Safety Proofs.Safety2 Proofs.Spec Proofs.Lawful.
-Require Import Proofs.EqClone Proofs.FmtSerde Proofs.Legacy.
+Require Import Proofs.EqClone Proofs.FmtSerde Proofs.Legacy Proofs.Owned Proofs.Owned2 Proofs.Gaps.
+From Coq Require Import Permutation.
 
 (* -------------------------------------------------------------------------- *)
 (* EqClone.clone_lawful                                                        *)
@@ -174,6 +200,113 @@ Proof. exact env_map_cloneV. Qed.
 Print Assumptions C15_env_map_cloneV.
 
 (* -------------------------------------------------------------------------- *)
+(* FmtSerde.env_set_cloneK / env_set_cloneV: HCK / HCV for the Set environment
+   of the correspondence check (ck = kcls; the unit value: veq = fun _ _ => true,
+   cloning () needs no honesty)                                                *)
+Theorem C15_env_set_cloneK :
+  forall sc : script,
+    honest sc ->
+    forall (s : cstate) (k : key),
+    exists (k' : key) (s' : cstate),
+      cloneK (env_set sc) s k = (Some k', s') /\ kcls k' = kcls k.
+Proof. exact env_set_cloneK. Qed.
+Print Assumptions C15_env_set_cloneK.
+
+Theorem C15_env_set_cloneV :
+  forall (sc : script) (s : cstate) (v : unit),
+    exists (v' : unit) (s' : cstate),
+      cloneV (env_set sc) s v = (Some v', s') /\ (fun _ _ : unit => true) v' v = true.
+Proof. exact env_set_cloneV. Qed.
+Print Assumptions C15_env_set_cloneV.
+
+(* -------------------------------------------------------------------------- *)
+(* independence at the level of object identities (Proofs/Gaps.v).
+   idK E k / idV E v are the ledger identities of a key / value object.
+   HFK / HFV below: whatever Clone returns - in ANY callback state - carries no
+   identity of the list `avoid`.                                               *)
+Theorem C15_clone_ids_fresh :
+  forall (K V Q T : Type) (E : env K V Q T) (avoid : list N) (ck : K -> N) (veq : V -> V -> bool)
+         (src : map K V) (w : world K V T),
+    (* HCK *)
+    (forall (s : T) (k : K), exists (k' : K) (s' : T), cloneK E s k = (Some k', s') /\ ck k' = ck k) ->
+    (* HCV *)
+    (forall (s : T) (v : V), exists (v' : V) (s' : T), cloneV E s v = (Some v', s') /\ veq v' v = true) ->
+    (* HFK: a cloned key is a new object *)
+    (forall (s : T) (k k' : K) (s' : T),
+        cloneK E s k = (Some k', s') -> forall x : N, In x (idK E k') -> ~ In x avoid) ->
+    (* HFV: a cloned value is a new object *)
+    (forall (s : T) (v v' : V) (s' : T),
+        cloneV E s v = (Some v', s') -> forall x : N, In x (idV E v') -> ~ In x avoid) ->
+    WF src -> WF (self w) -> len (self w) = 0 -> cap (self w) = cap src ->
+    wp (clone_from_src E src)
+       (fun (_ : unit) (w' : world K V T) =>
+          forall p : K * V,
+            In p (Spec.elems (self w')) ->
+            forall x : N, In x (idK E (fst p) ++ idV E (snd p)) -> ~ In x avoid)
+       (fun _ : world K V T => False)
+       w.
+Proof. exact (@clone_ids_fresh). Qed.
+Print Assumptions C15_clone_ids_fresh.
+
+(* with avoid := all identities stored in the original: no object of the clone is
+   an object of the original, entry by entry *)
+Theorem C15_clone_disjoint_from_source :
+  forall (K V Q T : Type) (E : env K V Q T) (ck : K -> N) (veq : V -> V -> bool)
+         (src : map K V) (w : world K V T),
+    let avoid := flat_map (fun p : K * V => idK E (fst p) ++ idV E (snd p)) (Spec.elems src) in
+    (forall (s : T) (k : K), exists (k' : K) (s' : T), cloneK E s k = (Some k', s') /\ ck k' = ck k) ->
+    (forall (s : T) (v : V), exists (v' : V) (s' : T), cloneV E s v = (Some v', s') /\ veq v' v = true) ->
+    (forall (s : T) (k k' : K) (s' : T),
+        cloneK E s k = (Some k', s') -> forall x : N, In x (idK E k') -> ~ In x avoid) ->
+    (forall (s : T) (v v' : V) (s' : T),
+        cloneV E s v = (Some v', s') -> forall x : N, In x (idV E v') -> ~ In x avoid) ->
+    WF src -> WF (self w) -> len (self w) = 0 -> cap (self w) = cap src ->
+    wp (clone_from_src E src)
+       (fun (_ : unit) (w' : world K V T) =>
+          forall p q : K * V,
+            In p (Spec.elems (self w')) ->
+            In q (Spec.elems src) ->
+            forall x : N,
+              In x (idK E (fst p) ++ idV E (snd p)) ->
+              ~ In x (idK E (fst q) ++ idV E (snd q)))
+       (fun _ : world K V T => False)
+       w.
+Proof. exact (@clone_disjoint_from_source). Qed.
+Print Assumptions C15_clone_disjoint_from_source.
+
+(* -------------------------------------------------------------------------- *)
+(* Owned2.clone_acct: ledger accounting of Clone for ANY environment.
+   owned E m = the identities held in any slot of m; dropped l = the identities
+   destroyed according to log l; ids_pair E p = idK E (fst p) ++ idV E (snd p);
+   clone_made E src n i s = the pairs the Clone callbacks return, in order, when
+   cloning slots i, i+1, ... of src from callback state s, up to the first
+   Clone panic; Tidy m = no element sits beyond len (true of Map::new()).
+   Normal return: the clone owns exactly the len src pairs the callbacks made -
+   one per stored entry - and NOTHING has been destroyed (the original's objects
+   are untouched: they are not even mentioned).  Panic: everything made so far
+   has been destroyed by the Drop of the partial clone (d) or is left in its
+   dead storage, nothing else was destroyed.                                   *)
+Theorem C15_clone_acct :
+  forall (K V Q T : Type) (E : env K V Q T) (src : map K V) (w : world K V T),
+    WF src -> WF (self w) -> len (self w) = 0 -> cap (self w) = cap src -> Tidy (self w) ->
+    let made := flat_map (ids_pair E) (clone_made E src (len src) 0 (cb w)) in
+    wp (clone_from_src E src)
+       (fun (_ : unit) (w' : world K V T) =>
+          WF (self w') /\
+          Tidy (self w') /\
+          len (self w') = len src /\
+          length (clone_made E src (len src) 0 (cb w)) = len src /\
+          dropped (log w') = dropped (log w) /\
+          Permutation (owned E (self w')) made)
+       (fun w' : world K V T =>
+          exists d : list N,
+            dropped (log w') = dropped (log w) ++ d /\
+            Permutation (owned E (self w') ++ d) made)
+       w.
+Proof. exact (@clone_acct). Qed.
+Print Assumptions C15_clone_acct.
+
+(* -------------------------------------------------------------------------- *)
 (* Non-vacuity.  m3 (Proofs/Legacy.v) is the 3-entry map
      [ (K1 c5, V2 d7); (K3 c6, V4 d8); (K5 c7, V6 d9) ]  with capacity 3.       *)
 Definition C15_sc0 : script := {| sc_adv := false; sc_seed := 0; sc_fk := 0; sc_fa := 0 |}.
@@ -224,3 +357,62 @@ Example C15_example_equal :
   | _ => False
   end.
 Proof. vm_compute. repeat split. Qed.
+
+(* HFK / HFV of C15_clone_ids_fresh / C15_clone_disjoint_from_source quantify over
+   EVERY callback state.  They are satisfiable: take the honest environment but
+   let Clone name its result old id + 1000 (state-independent); with avoid = the
+   six identities 1..6 stored in m3 all four premises hold.  (They do NOT hold of
+   env_map itself for a non-empty avoid list: its Clone takes the new identity
+   from the counter next_id of the callback state, and the premises range over
+   states whose counter points into avoid; see the header.) *)
+Definition C15_env_fresh : env key vobj query cstate :=
+  {| eqK := eqK (env_map C15_sc0); eqKQ := eqKQ (env_map C15_sc0);
+     eqQQ := eqQQ (env_map C15_sc0); eqQK := eqQK (env_map C15_sc0);
+     eqV := eqV (env_map C15_sc0);
+     cloneK := fun s k => (Some {| kid := kid k + 1000; kcls := kcls k |}, s);
+     cloneV := fun s v => (Some {| vid := vid v + 1000; vdat := vdat v |}, s);
+     dropK := dropK (env_map C15_sc0); dropV := dropV (env_map C15_sc0);
+     idK := fun k => [kid k]; idV := fun v => [vid v] |}.
+
+Example C15_example_fresh_hyps :
+  let E := C15_env_fresh in
+  let avoid := flat_map (fun p : key * vobj => idK E (fst p) ++ idV E (snd p)) (Spec.elems m3) in
+  avoid = [1; 2; 3; 4; 5; 6]%N /\
+  (forall (s : cstate) (k : key), exists (k' : key) (s' : cstate),
+      cloneK E s k = (Some k', s') /\ kcls k' = kcls k) /\
+  (forall (s : cstate) (v : vobj), exists (v' : vobj) (s' : cstate),
+      cloneV E s v = (Some v', s') /\ (vdat v' =? vdat v)%N = true) /\
+  (forall (s : cstate) (k k' : key) (s' : cstate),
+      cloneK E s k = (Some k', s') -> forall x : N, In x (idK E k') -> ~ In x avoid) /\
+  (forall (s : cstate) (v v' : vobj) (s' : cstate),
+      cloneV E s v = (Some v', s') -> forall x : N, In x (idV E v') -> ~ In x avoid).
+Proof.
+  cbv zeta. split; [reflexivity|].
+  split; [intros s k; eexists; eexists; split; reflexivity|].
+  split; [intros s v; eexists; eexists; split; [reflexivity | apply N.eqb_refl]|].
+  split.
+  - intros s k k' s' H x Hx Hin. cbn in H. injection H as <- _. cbn in Hx, Hin.
+    destruct Hx as [<-|[]]. repeat (destruct Hin as [Hin|Hin]; [lia|]). exact Hin.
+  - intros s v v' s' H x Hx Hin. cbn in H. injection H as <- _. cbn in Hx, Hin.
+    destruct Hx as [<-|[]]. repeat (destruct Hin as [Hin|Hin]; [lia|]). exact Hin.
+Qed.
+
+(* and the clone of m3 made by that environment: ids 1001..1006, none of 1..6 *)
+Example C15_example_fresh_run :
+  match clone_from_src C15_env_fresh m3 (w_of (new_map 3)) with
+  | Ok _ w' => owned C15_env_fresh (self w') = [1001; 1002; 1003; 1004; 1005; 1006]%N /\
+               dropped (log w') = []
+  | _ => False
+  end.
+Proof. vm_compute. split; reflexivity. Qed.
+
+(* C15_clone_acct on the interpreter's own environment (honest script): the six
+   objects made are those the clone owns (cf. C15_example_run); target tidy *)
+Example C15_example_acct :
+  flat_map (ids_pair (env_map C15_sc0)) (clone_made (env_map C15_sc0) m3 (len m3) 0 cs0)
+    = [100000; 100001; 100002; 100003; 100004; 100005]%N /\
+  Tidy (self (w_of (new_map 3))).
+Proof.
+  split; [vm_compute; reflexivity|].
+  intros i _ Hn. destruct i as [|[|[|i]]]; try reflexivity. exfalso. apply Hn. destruct i; reflexivity.
+Qed.
